@@ -100,6 +100,7 @@ def main(spec_path, out):
     spec = json.load(open(spec_path))   # [{"file":..., "items":[["Class","method"], [null,"function"]]}]
     lines = ["From Coq Require Import ZArith String List.", "Require Import Py.PyAst.", "Import ListNotations.", "Open Scope string_scope.", ""]
     allnames = []
+    everything = []
     for entry in spec:
         src = open(entry["file"]).read(); tree = ast.parse(src); ser = Ser(src)
         if entry["items"] == "*":
@@ -131,7 +132,11 @@ def main(spec_path, out):
             if node is None: lines.append("(* MISSING %s.%s in %s *)" % (cls, fn, entry["file"])); continue
             lines.append("(* %s : %s.%s, line %d *)" % (entry["file"], cls, fn, node.lineno))
             lines.append(ser.fundef(node, name)); lines.append("")
+            if not any(b == name for _, b in everything): everything.append(("%s.%s" % (cls or "", fn), name))
             if entry.get("star"): allnames.append(("%s.%s" % (cls or "", fn), name))
+    if everything:
+        lines.append("(* every serialised function of this property, by qualified name *)")
+        lines.append("Definition src_fundefs : list (string * fundef) :=\n  [" + ";\n   ".join("(%s, %s)" % (q(a), b) for a, b in everything) + "].")
     if allnames:
         lines.append("Definition src_all : list (string * fundef) :=\n  [" + ";\n   ".join("(%s, %s)" % (q(a), b) for a, b in allnames) + "].")
     open(out, "w").write("\n".join(lines))
